@@ -65,7 +65,7 @@ def _replay_search(a):
 def run(rep, tier, seed):
     from contracts.c01_bottleneck import all_contracts
     cs, table = all_contracts(tier)
-    cs = [c for c in cs if c.variant == "matching=False"]
+    cs = [c for c in cs if c.variant.startswith("matching=False")]          # float and integer-typed diagrams
     run_contracts(rep, cs, table, tier=tier, pid="C01", replayers=[(r"bottleneck", _replay_search)])
     rep.assume("D3 Hopcroft-Karp returns a maximum matching (len == 2n iff a perfect matching exists in the graph it is given); the complete graph at the largest candidate has one",
                "D6 mask indexing, D7 np.unique/np.sort = strictly increasing distinct entries, D2 bisect_left(range(n), x) = x",
